@@ -471,3 +471,140 @@ def classify(b, i, kind, detail, t):
     if detail == 'BoundsCheck':
         return 'array/slice index (not locally provable)'
     return detail
+
+
+# -- loops that pull from a source must be able to leave at end of input --------------------------------------------------
+
+PULL = re.compile(r'(BufRead::(read_line|read_until|fill_buf)|io::Read::read|util::fill_buffer(_bytes)?)$')
+
+
+def _mentions(x, locs):
+    """Does the operand / rvalue / place mention one of the locals?"""
+    if isinstance(x, dict):
+        if 'l' in x and x['l'] in locs and 'k' not in x:
+            return True
+        return any(_mentions(v, locs) for v in x.values())
+    if isinstance(x, list):
+        return any(_mentions(v, locs) for v in x)
+    return False
+
+
+def forward_from(b, start_local):
+    """Locals data-dependent on `start_local` through assignments and call results (not through out-parameters)."""
+    locs = {start_local}
+    changed = True
+    while changed:
+        changed = False
+        for blk in b.blocks:
+            if blk['c']:
+                continue
+            for s in blk['s']:
+                d = s['d']['l']
+                if d not in locs and _mentions(s['r'], locs):
+                    locs.add(d)
+                    changed = True
+            t = blk['t']
+            if t['k'] == 'call' and t['d']['l'] not in locs and _mentions(t['args'], locs):
+                locs.add(t['d']['l'])
+                changed = True
+    return locs
+
+
+COPY_CALLS = re.compile(r'(ops::Try::branch|Result::<.*>::(unwrap|expect|unwrap_or_default)|Option::<.*>::(unwrap|expect)|ops::Deref::deref|\[T\]::(len|is_empty)|<impl \[T\]>::(len|is_empty)|Buf::(remaining|has_remaining)|str::(len|is_empty)|BytesMut::(len|is_empty)|cmp::Ord::min|cmp::min)$')
+
+
+def copies_of(b, start_local):
+    """Locals that hold the pull result itself, a projection of it (Ok.0 / Continue.0 / Some.0), or its length / emptiness —
+    no arithmetic on it."""
+    locs = {start_local}
+    changed = True
+    while changed:
+        changed = False
+        for blk in b.blocks:
+            if blk['c']:
+                continue
+            for s in blk['s']:
+                d, r = s['d'], s['r']
+                if d['l'] in locs or d['pr']:
+                    continue
+                if r['k'] in ('use', 'cast', 'ref', 'len') or (r['k'] == 'un' and r.get('op') == 'Not'):
+                    if _mentions(r, locs):
+                        locs.add(d['l'])
+                        changed = True
+            t = blk['t']
+            if t['k'] == 'call' and t['d']['l'] not in locs and COPY_CALLS.search(t['f'].get('fn', '') or '') and _mentions(t['args'][:1], locs):
+                locs.add(t['d']['l'])
+                changed = True
+    return locs
+
+
+def pull_loops(b):
+    """[(loop blocks, [pull call blocks], ok)] for the natural loops (CFG SCCs) that call a source-pulling function.  ok: the loop
+    has an exit that is taken on a direct test of the pull result (its count compared with something, or its emptiness) — either the
+    test's own edge leaves the loop, or a value chosen under that test (one level of control dependence) decides a later exit."""
+    import callgraph
+    from rules.common import single_defs, resolve_value, enum_switch_info
+    edges = {i: set(j for j, _ in b.succ(i)) for i in range(len(b.blocks)) if not b.blocks[i]['c']}
+    defs = None
+    out = []
+    for comp in callgraph.sccs(edges):
+        if len(comp) == 1 and comp[0] not in edges.get(comp[0], ()):
+            continue
+        cs = set(comp)
+        pulls = [i for i in comp if b.blocks[i]['t']['k'] == 'call' and PULL.search(b.blocks[i]['t']['f'].get('fn', '') or '')]
+        if not pulls:
+            continue
+        defs = defs or single_defs(b)
+        cp = set()
+        for i in pulls:
+            cp |= copies_of(b, b.blocks[i]['t']['d']['l'])
+        tests = []
+        for i in comp:
+            t = b.blocks[i]['t']
+            if t['k'] != 'switch':
+                continue
+            info = enum_switch_info(b, i)
+            if info and (info[0].endswith('Result') or info[0].endswith('ControlFlow')):
+                continue          # Ok/Err: leaves on an error only
+            k, v = resolve_value(b, t['o'], defs)
+            if k == 'rv' and v['k'] == 'un':
+                k, v = resolve_value(b, v['o'][0], defs)
+            direct = ('l' in t['o'] and t['o']['l'] in cp) or (k == 'rv' and v['k'] == 'bin' and v['op'] in ('Eq', 'Ne', 'Lt', 'Le', 'Gt', 'Ge') and any(_mentions(o, cp) for o in v['o'])) \
+                or (k == 'call' and COPY_CALLS.search(v['f'].get('fn', '') or '') and _mentions(v['args'][:1], cp)) or (k == 'place' and _mentions(v, cp))
+            if direct:
+                tests.append(i)
+        ok = any(any(j not in cs for j, _ in b.succ(i)) for i in tests)
+        if not ok:
+            # one level of control dependence: a local assigned on one side only of a direct test decides an exit
+            chosen = set()
+            for i in tests:
+                succs = [j for j, _ in b.succ(i)]
+                regions = [b.reach_from([j], removed=frozenset([i])) & cs for j in succs]
+                common = set.intersection(*regions) if regions else set()
+                for reg in regions:
+                    for bi in reg - common:
+                        for st in b.blocks[bi]['s']:
+                            chosen.add(st['d']['l'])
+            dep = set()
+            for l in chosen:
+                dep |= forward_from(b, l)
+            for i in comp:
+                t = b.blocks[i]['t']
+                if t['k'] == 'switch' and 'l' in t['o'] and t['o']['l'] in dep and any(j not in cs for j, _ in b.succ(i)):
+                    ok = True
+        if not ok:
+            # state-machine loops (`loop { match mem::replace(self, Error) { A => { pull; *self = B } B => return .. } }`): every
+            # way from the pull back to the loop head stores a new state into *self, so the same arm is not re-entered by this
+            # loop; termination is by the finite state order, not by the pull result
+            head_back = True
+            for pb in pulls:
+                stores = [i for i in comp for st in b.blocks[i]['s'] if st['d']['l'] == 1 and st['d']['pr'] == ['*'] and st['r']['k'] in ('agg', 'use')]
+                stores += [i for i in comp if b.blocks[i]['t']['k'] == 'call' and re.search(r'mem::replace$', b.blocks[i]['t']['f'].get('fn', '') or '')
+                           and False]
+                nxt = b.blocks[pb]['t']['t']
+                # can we come back to the pull block without passing a state store?
+                if b.find_path(nxt, {pb}, removed=frozenset(x for x in stores if x != pb)) is not None:
+                    head_back = False
+            ok = head_back and bool(pulls)
+        out.append((comp, pulls, ok))
+    return out
